@@ -143,6 +143,7 @@ func rulesC09(c *Ctx) {
 	c.Rule("C09.opcorr", "in every `case TOKEN:` arm of the constant folder (reduceBinaryExpr*LHS) and of the evaluator (evalBinaryExpr) the Go operator or method applied between the left and the right operand is the one TOKEN denotes, operands in order for non-commutative operators")
 	c.Rule("C09.signtest", "the negative-integer-versus-unsigned arms test strict negativity (< 0) of the signed side and return: negative left: < <= true, > >= false; negative right: < <= false, > >= true — the same constants in folder and evaluator")
 	nArms, nSign := 0, 0
+	signOps := map[string]map[string]bool{}
 	for _, fb := range p.funcBodies() {
 		if fb.Lit != nil {
 			continue
@@ -322,8 +323,23 @@ func rulesC09(c *Ctx) {
 						who = "right"
 					}
 					key := fmt.Sprintf("%s: %s", fb.Name, types.ExprString(x.Cond))
+					var tnames []string
 					for t := range pairs {
-						key += " " + tt.Name[t]
+						tnames = append(tnames, tt.Name[t])
+						place := "folder"
+						if strings.Contains(fb.Name, "evalBinaryExpr") {
+							place = "evaluator"
+						}
+						if signOps[place+" "+who] == nil {
+							signOps[place+" "+who] = map[string]bool{}
+						}
+						signOps[place+" "+who][tt.Name[t]] = true
+					}
+					// canonical operator order (the folder's: LT LTE GT GTE, then the rest)
+					rank := map[string]int{"LT": 0, "LTE": 1, "GT": 2, "GTE": 3, "EQ": 4, "NEQ": 5}
+					sort.Slice(tnames, func(i, j int) bool { return rank[tnames[i]] < rank[tnames[j]] })
+					for _, tn := range tnames {
+						key += " " + tn
 					}
 					if b.Op != token.LSS {
 						c.Bad("C09.signtest", key, x.Pos(), "the signed side must be tested with `< 0`; "+b.Op.String()+" 0 also diverts zero, which compares like any other number")
@@ -357,6 +373,31 @@ func rulesC09(c *Ctx) {
 			})
 		}
 		walk(fb.Body, nil)
+	}
+	// folder and evaluator divert a negative operand for the same operators
+	for _, who := range []string{"left", "right"} {
+		ev, fo := signOps["evaluator "+who], signOps["folder "+who]
+		var only []string
+		for op := range ev {
+			if !fo[op] {
+				only = append(only, op+" (evaluator only)")
+			}
+		}
+		for op := range fo {
+			if !ev[op] {
+				only = append(only, op+" (folder only)")
+			}
+		}
+		sort.Strings(only)
+		key := "sign test on the " + who + " operand: same operators in folder and evaluator"
+		if len(ev) == 0 && len(fo) == 0 {
+			continue
+		}
+		if len(only) > 0 {
+			c.Bad("C09.signtest", key, 0, "a negative integer against an unsigned is diverted for "+strings.Join(only, ", ")+": with both operands bound at Reduce time the fold and the evaluation take different arms (e.g. -1 = 18446744073709551615)")
+		} else {
+			c.OK("C09.signtest", key, 0, fmt.Sprintf("%d operators", len(ev)))
+		}
 	}
 	c.Floor("C09.opcorr", nArms, 150)
 	c.Floor("C09.signtest", nSign, 10)
